@@ -23,6 +23,9 @@ theorem inv_step (s s' : St) (e : Ev) (h : Inv s) (hs : step s e = some s') : In
   | reinit n rc => exact inv_stepReinit s s' n rc h hs
   | obsLock v => simp only [step] at hs; split at hs <;> simp_all
   | obs c nw => simp only [step] at hs; split at hs <;> simp_all
+  | fsamp a v => exact inv_stepFsamp s s' a v h hs
+  | fbump a v => exact inv_stepFbump s s' a v h hs
+  | obsF v => simp only [step] at hs; split at hs <;> simp_all
 
 /-- every reachable state satisfies the invariant -/
 theorem inv_reachable (k : Actor → Kind) (n : Nat) (hn : 0 < n) (s : St) (h : (machine k n).Reachable s) : Inv s :=
@@ -66,7 +69,8 @@ theorem barrier_all_released (k : Actor → Kind) (n : Nat) (hn : 0 < n) (s s' :
   have hi' := inv_step s s' _ hi hs
   simp only [step, stepRel, hp] at hs
   split at hs
-  · rename_i hq
+  · rename_i hqw
+    have hq := hqw.1
     obtain ⟨h1, h2, _, h4⟩ := chk_some _ _ _ _ _ hs
     subst h1
     refine ⟨hq, ?_, rfl, rfl, rfl, h2, ?_⟩
@@ -137,6 +141,56 @@ theorem barrier_reinit (k : Actor → Kind) (n : Nat) (hn : 0 < n) (s s' : St) (
     exact ⟨hc.1, hc.2, rfl, hc.2, rfl, rfl, hi'⟩
   · cases hs
 
+/-- **re-initialisation does not disturb the waiters that are still leaving** — the futex generation word.
+ABT_barrier_reinit changes `num_waiters` and nothing else: not the program counter of any caller, not the wait-list,
+and in particular not the generation word `waitlist.futex.val` nor what any sleeper sampled from it. -/
+theorem barrier_reinit_keeps_generation (s s' : St) (m : Nat) (rc : Rc) (hs : step s (.reinit m rc) = some s') :
+    s'.fval = s.fval ∧ s'.samp = s.samp ∧ s'.wny = s.wny ∧ s'.pc = s.pc ∧ s'.q = s.q ∧ s'.lock = s.lock ∧
+    s'.counter = s.counter := by
+  simp only [step, stepReinit] at hs
+  (repeat' (split at hs)) <;> first | (cases hs; done) | (cases hs; simp)
+
+/-- **a woken external waiter leaves its futex loop**.  A non-ULT waiter sleeps in
+`do futex_wait(val, original_val) while (val == original_val)` with `original_val` sampled under the barrier lock.
+In every reachable state: the generation word never goes back below a sample (`samp a ≤ fval`); and once the last
+arrival that dequeued a non-ULT waiter `a` has released the lock (more generally: whenever no increment is pending),
+the word is strictly greater than what `a` sampled — so `a`'s re-check finds `val ≠ original_val` and `a` returns, no
+matter how late it runs and whatever happened in between: further rounds, and ABT_barrier_reinit
+(`barrier_reinit_keeps_generation`).  The only writer of the word is a broadcaster inside its critical section
+(`fbump` is enabled at `csLast` only), each write increments it, and a broadcaster that woke a non-ULT waiter cannot
+release the lock before it has incremented the word.
+Not modelled: wrap-around of the 32-bit word (2^32 broadcasts while one waiter sleeps). -/
+theorem barrier_ext_woken_leaves_futex_loop (k : Actor → Kind) (n : Nat) (hn : 0 < n) (s : St)
+    (h : (machine k n).Reachable s) :
+    (∀ a, s.samp a ≤ s.fval) ∧
+    (∀ a, s.kind a ≠ .ult → s.pc a = .woken → (s.lock = none ∨ s.wny = false) → s.samp a < s.fval) ∧
+    (∀ a v s', step s (.fbump a v) = some s' → s.pc a = .csLast ∧ s.lock = some a ∧ s'.fval = s.fval + 1) ∧
+    (∀ a c nw e s', step s (.rel a c nw e) = some s' → s.pc a = .csLast → s.wny = false) := by
+  have hi := inv_reachable k n hn s h
+  refine ⟨hi.sampLe, ?_, ?_, ?_⟩
+  · intro a hk hp hl
+    have hw : s.wny = false := by
+      rcases hl with hl | hl
+      · cases hwn : s.wny with
+        | false => rfl
+        | true => exact absurd hl (hi.wnyCS hwn).1
+      · exact hl
+    rcases hi.wokenLt a hk (Or.inl hp) with h1 | h1
+    · exact h1
+    · rw [hw] at h1; cases h1
+  · intro a v s' hs
+    simp only [step, stepFbump] at hs
+    split at hs
+    · rename_i hc
+      cases hs
+      exact ⟨hc.1, (hi.lockIff a).mpr (by rw [hc.1]; trivial), hc.2.2.2⟩
+    · cases hs
+  · intro a c nw e s' hs hp
+    simp only [step, stepRel, hp] at hs
+    split at hs
+    · rename_i hqw; exact hqw.2
+    · cases hs
+
 /-- ABT_barrier_reinit(0) fails with ABT_ERR_INV_ARG and changes nothing -/
 theorem barrier_reinit_zero (s s' : St) (rc : Rc) (hs : step s (.reinit 0 rc) = some s') : rc = .errInvArg ∧ s' = s := by
   simp only [step, stepReinit, if_true] at hs
@@ -186,11 +240,11 @@ example :
         (init (fun a => if a = 1 then .ult else if a = 2 then .ext else .task) 2)
       [.call 1, .acq 1 false, .enq 1, .call 3, .rel 1 1 2 false, .ret 3 .errBarrier,
        .call 2, .acq 2 false, .wake 2 1, .rel 2 0 2 true, .ret 2 .ok,
-       .call 2, .acq 2 false, .enq 2, .rel 2 1 2 false, .acq 2 false, .rel 2 1 2 false,
-       .ret 1 .ok, .call 1, .acq 1 false, .wake 1 2, .ret 2 .ok, .rel 1 0 2 true, .ret 1 .ok,
-       .reinit 0 .errInvArg, .reinit 1 .ok, .call 1, .acq 1 false, .rel 1 0 1 true, .ret 1 .ok]).map
-      (fun s => ([s.round, s.entered 0, s.entered 1, s.entered 2, s.need 2, s.counter], s.q, s.pc 1, s.pc 2))
-      = some ([3, 2, 2, 1, 1, 0], [], .idle, .idle) := by decide
+       .call 2, .acq 2 false, .enq 2, .fsamp 2 0, .rel 2 1 2 false, .acq 2 false, .fsamp 2 0, .rel 2 1 2 false,
+       .ret 1 .ok, .call 1, .acq 1 false, .wake 1 2, .obsF 0, .fbump 1 1, .rel 1 0 2 true, .ret 1 .ok,
+       .reinit 0 .errInvArg, .reinit 1 .ok, .obsF 1, .ret 2 .ok, .call 1, .acq 1 false, .rel 1 0 1 true, .ret 1 .ok]).map
+      (fun s => ([s.round, s.entered 0, s.entered 1, s.entered 2, s.need 2, s.counter, s.fval, s.samp 2], s.q, s.pc 1, s.pc 2))
+      = some ([3, 2, 2, 1, 1, 0, 1, 0], [], .idle, .idle) := by decide
 
 /-- the model rejects an early return (actor 1 returns although the second waiter never came) … -/
 example :
@@ -202,6 +256,15 @@ example :
     (machine (fun _ => .ult) 3).run (init (fun _ => .ult) 3)
       [.call 1, .acq 1 false, .enq 1, .rel 1 1 3 false, .call 2, .acq 2 false, .enq 2, .rel 2 2 3 false,
        .call 3, .acq 3 false, .wake 3 1, .rel 3 0 3 false] = none := by decide
+
+/-- … a last arrival that woke an external waiter and releases the lock without having advanced the futex word, and
+any write of that word outside a broadcast (e.g. by a re-initialisation) -/
+example :
+    (machine (fun a => if a = 1 then .ext else .ult) 2).run (init (fun a => if a = 1 then .ext else .ult) 2)
+      [.call 1, .acq 1 false, .enq 1, .fsamp 1 0, .rel 1 1 2 false, .call 2, .acq 2 false, .wake 2 1, .rel 2 0 2 true] = none ∧
+    (machine (fun a => if a = 1 then .ext else .ult) 2).run (init (fun a => if a = 1 then .ext else .ult) 2)
+      [.call 1, .acq 1 false, .enq 1, .fsamp 1 0, .rel 1 1 2 false, .call 2, .acq 2 false, .wake 2 1, .fbump 2 1,
+       .rel 2 0 2 true, .ret 2 .ok, .reinit 2 .ok, .fbump 2 0] = none := by decide
 
 /-! ### ABT_xstream_barrier -/
 open ArgoVerif.Model in
